@@ -91,15 +91,18 @@ func (h *NFSProcedureHandler) handleLookup(body io.Reader, reply *RPCReply, auth
 		return reply, nil
 	}
 
+	// R4: Copy attrs under RLock - before the node is published in the handle
+	// table: from then on a concurrent SETATTR through the handle edits these
+	// attributes, and the reply would mix what was looked up with that change
+	lookupNode.mu.RLock()
+	lookupAttrsCopy := *lookupNode.attrs
+	lookupNode.mu.RUnlock()
+
 	handle := h.server.handler.fileMap.Allocate(lookupNode)
 	if h.server.options.Debug {
 		h.server.logger.Printf("LOOKUP: Found '%s', allocated handle %d", lookupPath, handle)
 	}
 
-	// R4: Copy attrs under RLock
-	lookupNode.mu.RLock()
-	lookupAttrsCopy := *lookupNode.attrs
-	lookupNode.mu.RUnlock()
 	nodeAttrsCopy, ok := h.currentAttrs(node)
 	if !ok {
 		return nfsErrorWithPostOp(reply, NFSERR_IO), nil
